@@ -148,6 +148,13 @@ func c17(w *core.World, r *core.Report) {
 			r.Fail("RedisOutput.SetRunId/ids", f.Pos(), "SetRunId no longer re-keys the checkpoint")
 		}
 	}
+	// the (re)connection decisions of syncMeta decide what happens to the stored position (shared with C06)
+	r.Rule("R06.3", "PSYNC argument choice and cache clearing on every successful path of syncMeta (shared with C06)", 3)
+	r.Rule("R06.4", "reader start / writer offset / snapshot size definitions on every successful path of syncMeta (shared with C06)", 2)
+	r.Rule("R06.6", "one id for cache and bookkeeping; CONTINUE keeps the source's current id (shared with C06)", 2)
+	r.Rule("R06.10", "a full resynchronisation does not carry the target's old position over to the new replication id (shared with C06)", 2)
+	r.Rule("R06.14", "a granted continuation keeps the position the target holds: the output is told to drop it only on a full resynchronisation (shared with C06)", 1)
+	ruleSyncMetaPaths(w, r)
 }
 
 func ruleStaleGC(w *core.World, r *core.Report) {
